@@ -115,8 +115,26 @@ func learnNil(st *PathState, cond ssa.Value, truth bool) {
 // learnBool records the outcome of a branch on a boolean value that is tested again elsewhere (`_, ok := m[k]; if !ok {…}; …;
 // if ok {…}`): an SSA value keeps its content until its instruction runs again (Find kills the fact then), so the
 // second test must agree with the first. Values tested only once are not recorded (keeps the state space small).
+// canonBool: a boolean read back from a field of a purely local struct that is stored exactly once (a result struct a
+// refactoring routes flags through) is the stored value.
+func canonBool(v ssa.Value) ssa.Value {
+	for i := 0; i < 4; i++ {
+		u, ok := v.(*ssa.UnOp)
+		if !ok || u.Op != token.MUL {
+			return v
+		}
+		sv := localFieldLoad(u)
+		if sv == nil {
+			return v
+		}
+		v = sv
+	}
+	return v
+}
+
 func learnBool(st *PathState, cond ssa.Value, truth bool) {
 	for {
+		cond = canonBool(cond)
 		u, ok := cond.(*ssa.UnOp)
 		if !ok || u.Op != token.NOT {
 			break
@@ -635,6 +653,7 @@ func (s *PathState) evalBool(v ssa.Value, depth int) (val, known bool) {
 	if depth > 6 {
 		return false, false
 	}
+	v = canonBool(v)
 	if c, ok := s.constOf(v); ok && c.Value != nil {
 		if c.Value.Kind() == constant.Bool {
 			return constant.BoolVal(c.Value), true
@@ -995,3 +1014,6 @@ func NoReturn(in ssa.Instruction) bool {
 	}
 	return false
 }
+
+// CanonBool exposes canonBool to the rule layer.
+func CanonBool(v ssa.Value) ssa.Value { return canonBool(v) }
